@@ -239,3 +239,12 @@ def run(cx):
         allow = {f"{call.path}/call:Option::expect#0": "route id returned by the matcher is always present in `routes` (C16.3: same id inserted in both, routes never shrinks)"}
         reach, sites, used = check_panic_inventory(ob, prog, entries, allow)
         ob.set_sample({"entries": entries, "reachable_bodies": len(reach), "sites": [s["key"] for s in sites]})
+
+    with cx.ob("C16.6", "R-SHAPE", "every decodable request reaches the router whatever its route string: header conversion is total and field-to-field (no validation of the route before routing) - C07.4 re-evaluated") as ob:
+        from . import c07
+        sub = cx.__class__("C16", prog, cx.tier, cx.config, cx.tree, repo=cx.repo)
+        c07.run(sub)
+        w = [x for x in sub.obs if x.oid in ['C07.4']]
+        ob.count(sum(x.evals for x in w))
+        bad = [v for x in w for v in x.violations]
+        ob.require(len(w) == 1 and not bad, "route-reaches-router/no-validation-before-routing", "the request header conversion can reject or alter a route before the router sees it: " + "; ".join(str(v.msg) for v in bad)[:300], "anemo::types::request::RequestHeader::from_raw")
